@@ -98,6 +98,8 @@ class Ctx:
     self.unknown_feas = 0
     self.lemma_count = 0
     self.tokens: list = []
+    self.hyps: list = []       # hypotheses used by obligations only (e.g. quantified invariants); not given to the path solver
+    self.heapctx = None
 
   # -- naming
 
@@ -164,8 +166,8 @@ class Ctx:
       cond = cond.term
     if isinstance(cond, bool):
       cond = z3.BoolVal(cond)
-    ob = Obligation(name=name, kind=kind, pc=list(self.pc), goal=cond, path=self.path_no, where=self.label, note=note,
-                    vars=dict(self.inputs))
+    ob = Obligation(name=name, kind=kind, pc=list(self.hyps) + list(self.pc), goal=cond, path=self.path_no, where=self.label,
+                    note=note, vars=dict(self.inputs))
     self.obligations.append(ob)
     if assume_after:
       c = z3.simplify(cond)
@@ -916,8 +918,10 @@ _SHIMS = (vc_int, vc_float, vc_Fraction)
 def _unshim(cls):
   if _real_isinstance(cls, tuple):
     return tuple(_unshim(c) for c in cls)
-  if _real_isinstance(cls, type) and cls in _SHIMS:
+  if _real_isinstance(cls, type) and getattr(cls, "__real__", None) is not None and "__real__" in cls.__dict__:
     return cls.__real__
+  if getattr(cls, "__name__", "") == "vc_type" and not _real_isinstance(cls, type):
+    return type
   return cls
 
 
